@@ -7,7 +7,7 @@ from ..model import Program, AnalysisError, own_nodes, norm, names_in, FuncInfo
 from ..cfg import cfg_of
 from ..guards import Env, walk, collect_atoms, norm as cnorm
 from ..report import Report
-from ..util import callee_last, parents, enclosing_stmt
+from ..util import callee_last, parents, enclosing_stmt, inline_temps
 
 FG = 'fggs.fggs'
 TABLE_KIND = {'domains': 'name', 'factors': 'name', '_node_labels': 'name', '_edge_labels': 'name',
@@ -164,7 +164,8 @@ def _check_role(rep: Report, rule: str, f: FuncInfo, store: int, role: str, matc
         if nd.kind != 'test':
             continue
         for t, a in collect_atoms(nd.expr).items():
-            v = matcher(a, t)
+            a_in = inline_temps(f.node, a)       # an operand may have been given a local name first
+            v = matcher(a_in, cnorm(a_in))
             if v is not None:
                 hits.append((n, t, v))
     construct = f"{cfg.describe(store).split(': ', 1)[-1]} requires: {what}"
